@@ -61,9 +61,28 @@ SUSP_EVENTS = ["RUNNING_SPA_DISCONNECTED", "CLIENT_FACADE_TEARDOWN", "CONNECTION
                "LOCATING_FINISHED", "CONNECTION_GOT_CHANNEL", "RUNNING_PING_RECEIVED", "CLIENT_FACADE_IS_READY"]
 
 
+_PILOT = {}
+
+
+def handshake_datagram_times():
+    """times at which the client sends each datagram of discovery + handshake in an undisturbed run
+    (a pilot run of the real code); faults are then placed just before each of them"""
+    if "t" not in _PILOT:
+        r = LifecycleRun(env.rng("c08-pilot"), [], horizon=12.0)
+        r.run()
+        ts = sorted({round(t, 3) for (t, d, _data, _info) in r.s.net.log if d == "c2s" and t < 11.0})
+        _PILOT["t"] = ts
+    return _PILOT["t"]
+
+
 def scenarios(rng, quick):
     """-> list of (name, script, susp, horizon)"""
     out = [("happy", [], {}, 30.0)]
+    # a blackout that begins just before each datagram of discovery / handshake leaves the client
+    for k, t in enumerate(handshake_datagram_times()):
+        for d in ([100.0] if quick else [3.0, 30.0, 100.0, 200.0]):
+            a = max(0.0, round(t - 0.005, 3))
+            out.append((f"blackout-before-dgram{k}@{a}+{d}", [(a, "net", "blackout"), (a + d, "net", "ok")], {}, a + d + 250))
     # resets at enumerated points of discovery, handshake and steady state
     pts = [0.05, 2.0, 4.05, 4.15, 4.3, 4.6, 4.8, 5.0, 6.0, 7.65, 7.75, 9.0, 20.0]
     if not quick:
